@@ -296,6 +296,9 @@ def run(ctx):
     ctx.rule("R10.w", "results are applied by the task that can be cancelled: in Parameters._async_ref every `.update(...)` of the namespace is a statement of the coroutine itself, none sits in a "
                       "nested function (a callback handed to the event loop escapes the cancellation of a superseded reference)", floor=1)
     results_applied_by_the_task(ctx, "R10.w")
+    ctx.rule("R10.z", "cancellation stops a superseded reference: no async function of param catches CancelledError / BaseException / everything and carries on (the handler ends with raise, return "
+                      "or break)", floor=1)
+    cancellation_is_not_swallowed(ctx, "R10.z")
 
     # ------------------------------------------------------------- R10.j
     from checks.shared import syncing_set_replaced
@@ -341,3 +344,53 @@ def run(ctx):
     link_model.report(ctx, "C10", "R10.l")
     from checks import update_model
     update_model.report(ctx, "C10", "R10.u")
+
+
+_CANCEL_EXAMPLE = '''
+async def consume(gen):
+    try:
+        value = await step
+    except asyncio.CancelledError:
+        value = await step
+        gen.close()
+    yield value
+'''
+
+
+def _swallowing_handlers(fnode):
+    """except-handlers of an async function that catch task cancellation (CancelledError, BaseException, a bare except) and do
+    not end by leaving (raise / return / break): execution falls through to the code after the try."""
+    out = []
+    for h in ast.walk(fnode):
+        if not isinstance(h, ast.ExceptHandler):
+            continue
+        names = [] if h.type is None else [norm(x) for x in (h.type.elts if isinstance(h.type, ast.Tuple) else [h.type])]
+        catches = h.type is None or any(n.rsplit(".", 1)[-1] in ("CancelledError", "BaseException") for n in names)
+        if catches and not (h.body and isinstance(h.body[-1], (ast.Raise, ast.Return, ast.Break))):
+            out.append(h)
+    return out
+
+
+def cancellation_is_not_swallowed(ctx, rule):
+    """`task.cancel()` is the only thing that stops a superseded asynchronous reference.  No coroutine / async generator of
+    param may catch the cancellation and carry on: a handler for CancelledError (or BaseException / bare except) in an async
+    function ends with raise, return or break.  (Zero instances on the pinned tree; the matcher is exercised on an embedded
+    example on every run.)"""
+    ex = ast.parse(_CANCEL_EXAMPLE).body[0]
+    if len(_swallowing_handlers(ex)) != 1:
+        raise AnalysisError("%s: the matcher no longer recognises the embedded example of a swallowed cancellation" % rule)
+    n, bad = 0, []
+    for f in ctx.repo.all_funcs("param"):
+        if not f.is_async:
+            continue
+        n += 1
+        for h in _swallowing_handlers(f.node):
+            bad.append((f, h))
+    ctx.require(n >= 5, "fewer than 5 async functions found in param (%d)" % n)
+    if bad:
+        f, h = bad[0]
+        ctx.fail(rule, f, h, "%s catches the cancellation of its task (`except %s`) and carries on: a superseded reference that was cancelled while a step was in flight delivers one more item "
+                             "after the newer assignment" % (f.qualname.rsplit(".", 1)[-1], norm(h.type) if h.type is not None else ""), key="%s::swallows-cancellation" % f.qualname,
+                 input="a sync-generator reference superseded while next() runs in the worker thread: history ['first', 'plain', 'stale']")
+    else:
+        ctx.ok(rule, ctx.repo.func("param._utils._to_async_gen"), None, "none of the %d async functions of param catches task cancellation without leaving (matcher checked on an embedded example)" % n)
